@@ -35,6 +35,9 @@ def run_events(cfg, events, handlers=None):
                 results.append(("ok",))
             except ValueError:
                 results.append(("err", "value"))
+        elif k == "delregion":
+            h.state.deleteRegion(ev[1])
+            results.append(("ok",))
         else:
             raise ValueError(ev)
     return results, h
@@ -122,10 +125,14 @@ def judge(cfg, events, results, props=None):
             out.append(("C07", i, "reading the synthesised commands %r does not give the intended values: %s"
                         % (cur["syn"], msg)))
 
+    seen_texts = set()         # commands of the file so far: a deferred first/last command comes back verbatim
     for i, (ev, res) in enumerate(zip(events, results)):
         outs = forwarded(ev, res)
         cur["syn"] = [o for o in outs if not (ev[0] == "g" and o == ev[1])
-                      and o not in scripts_enter and o not in scripts_exit]
+                      and o not in scripts_enter and o not in scripts_exit and o not in seen_texts]
+        cur["seen"] = set(seen_texts)
+        if ev[0] == "g":
+            seen_texts.add(ev[1])
         if res[0] == "err":
             viol("C09", i, "exception %s on %r" % (res[1], ev))
             # a failure while a synthesised command is being rendered: the command (and with it the
@@ -138,6 +145,9 @@ def judge(cfg, events, results, props=None):
         if ev[0] == "g" and res[0] == "list":
             if not res[1] or any((not isinstance(c, str)) or c == "" for c in res[1]):
                 viol("C09", i, "malformed result %r" % (res,))
+        if ev[0] == "delregion":
+            regions[:] = [g for g in regions if g[1] != ev[1]]
+            continue
         if ev[0] == "addregion":
             if res[0] == "ok":
                 regions.append(ev[1])
@@ -254,7 +264,7 @@ def judge(cfg, events, results, props=None):
                         viol("C05", i, "printing move %r forwarded at physical depth %g, file depth %g"
                              % (o, depth_before, virt_depth_before))
             if o != (ev[1] if ev[0] == "g" else None) and ocode is not None and \
-                    o not in scripts_enter and o not in scripts_exit:
+                    o not in scripts_enter and o not in scripts_exit and o not in cur["seen"]:
                 _check_synth(o, viol, i)
 
         # ---- per-step judgements
